@@ -1,7 +1,10 @@
 package merger
 
 import (
+	"errors"
+
 	"github.com/buildbuildio/pebbles/common"
+	"github.com/samber/lo"
 	"github.com/vektah/gqlparser/v2/ast"
 )
 
@@ -21,6 +24,11 @@ func (SanitizeNodeMergerFunc) Merge(inputs []*MergeInput) (*MergeResult, error) 
 			continue
 		}
 		sanitizedFieldList = append(sanitizedFieldList, field)
+	}
+
+	// a query type must define one or more fields (of its own: __schema and __type do not count)
+	if !lo.ContainsBy(sanitizedFieldList, func(f *ast.FieldDefinition) bool { return !common.IsBuiltinName(f.Name) }) {
+		return nil, errors.New("query type has no fields but node: nothing is left after hiding it")
 	}
 
 	res.Schema.Query.Fields = sanitizedFieldList
